@@ -13,7 +13,11 @@ sys.setrecursionlimit(10000)
 
 
 def walk(d):
-    """All sub-descriptors of d (pre-order), d included."""
+    """All sub-descriptors of d (pre-order), d included.  Lists of descriptors are accepted."""
+    if isinstance(d, list):
+        for x in d:
+            yield from walk(x)
+        return
     if isinstance(d, dict):
         yield d
         for k, v in d.items():
@@ -232,6 +236,25 @@ class Fn:
         self._facts = None
         self._defs = None
         self._reach = {}
+        # constant branch conditions (`if constexpr`, template arguments): the edge that can never
+        # be taken is removed, so both instantiations of a template are analysed as written
+        for b in self.blocks.values():
+            t = b.get('term')
+            if t and t['kind'] in COND_KINDS and len(b['succ']) == 2 and 'cond' in t:
+                c = t['cond']
+                while isinstance(c, dict) and c.get('k') == 'bin' and c['op'] in ('&&', '||'):
+                    c = c['r']
+                v = const_value(c) if isinstance(strip(c), dict) and strip(c).get('k') in ('bool', 'int') else None
+                if isinstance(strip(c), dict) and strip(c).get('k') == 'un' and strip(c)['op'] == '!':
+                    inner = strip(strip(c)['e'])
+                    if isinstance(inner, dict) and inner.get('k') in ('bool', 'int'):
+                        v = 0 if const_value(inner) else 1
+                if v is not None:
+                    dead = 1 if v else 0
+                    s = b['succ'][dead]
+                    b['succ'][dead] = None
+                    if s is not None and b['id'] in self.preds[s]:
+                        self.preds[s].remove(b['id'])
 
     def __repr__(self):
         return '<Fn %s>' % self.name
@@ -642,6 +665,8 @@ def _edge_fact(fn, bid, idx):
         if c is None:
             return None
         atom, pol = norm_cond(fn.prog, c)
+        if isinstance(strip(atom), dict) and strip(atom).get('k') in ('bool', 'int'):
+            return None             # constant condition: carries no information
         if idx == 1:
             pol = not pol
         return dstr(atom), pol, atom
